@@ -77,6 +77,9 @@ class World(object):
         kw["useEncryptThenMAC"] = s_opts.get("etm", True)
         if s_opts.get("ciphers"):
             kw["cipherNames"] = s_opts["ciphers"]
+        if s_opts.get("hrr"):
+            kw["eccCurves"] = ["secp256r1", "secp384r1"]
+            kw["keyShares"] = ["secp256r1"]
         return sc.mk_settings(**kw)
 
 
@@ -86,6 +89,11 @@ def client_settings(v, c_opts):
     kw["useEncryptThenMAC"] = c_opts.get("etm", True)
     if c_opts.get("ciphers"):
         kw["cipherNames"] = c_opts["ciphers"]
+    if c_opts.get("hrr"):
+        # first key share is for a group the server does not take:
+        # HelloRetryRequest
+        kw["keyShares"] = ["x25519"]
+        kw["eccCurves"] = ["x25519", "secp256r1"]
     return sc.mk_settings(**kw)
 
 
@@ -128,6 +136,18 @@ def was_resumed(p):
     msgs, _, _ = tap.plaintext_flight(p.link.wire("s"))
     types = [t for t, b in msgs]
     if tuple(p.c.version) == (3, 4):
+        # (after a HelloRetryRequest the real ServerHello follows the
+        # compatibility CCS)
+        from vlib.wire import records
+        buf = b""
+        for r in records(p.link.wire("s"))[0]:
+            if r["type"] == 22:
+                buf += r["body"]
+            elif r["type"] == 20:
+                continue
+            else:
+                break
+        msgs = tap.split_hs(buf)[0]
         sh = [tap.parse_server_hello(b) for t, b in msgs if t == 2]
         sh = [x for x in sh if not x["hrr"]]
         return bool(sh) and 41 in sh[-1]["exts"]
@@ -225,13 +245,19 @@ def step(w, i, op):
             sc.read_all(p, "s")
             sc.do_close(p, "s")
             sc.read_all(p, "c")
-        elif kind == "fatal":
+        elif kind in ("fatal", "fatal_keep"):
             # the client application-level failure: fatal alert to server
+            snap = _snapshot(e["session"])
             drive({"c": p.c._sendError(80, "harness")}, p.link,
                   on_stall="leave")
             sc.read_all(p, "s")
             e["invalid_c"] = True
             e["invalid_s"] = True
+            if kind == "fatal_keep":
+                # ... but the client side keeps (a copy of) the session as it
+                # was: the *server* must have invalidated its half
+                e["session"] = snap
+                e["invalid_c"] = False
         elif kind == "lost_close":
             # the client closes properly but its close_notify never arrives:
             # only the server sees an abrupt end (and must invalidate)
@@ -255,6 +281,41 @@ def step(w, i, op):
         w.changed = True
         w.labels.append("close:" + kind)
         return None
+    if k == "kill_resumed":
+        # the *resumed* connection dies badly: the session it shares with
+        # the original must not be resumable afterwards either
+        p = e.pop("last_resumed_pair", None)
+        if p is None:
+            return None
+        snap = _snapshot(e["session"])
+        same = p.c.session is e["session"]
+        if op[2] == "fatal":
+            drive({"c": p.c._sendError(80, "harness")}, p.link,
+                  on_stall="leave")
+            sc.read_all(p, "s")
+        elif op[2] == "garbage":
+            # a corrupted record from the client: the server detects it
+            p.link.inject("s", bytes([23, 3, 3, 0, 40]) + b"\x5a" * 40)
+            sc.read_all(p, "s")
+            sc.read_all(p, "c")
+        else:
+            p.link.out["c"].eof = True
+            p.link.out["s"].eof = True
+            p.link.pump()
+            sc.read_all(p, "s")
+            sc.read_all(p, "c")
+        # (TLS 1.3 gives the resumed connection a session object of its own:
+        # the original ticket stays usable on the client side)
+        if same:
+            e["invalid_c"] = True
+        e["invalid_s"] = True
+        if len(op) > 3 and op[3]:
+            # the client keeps a copy of the session from before the failure
+            e["session"] = snap
+            e["invalid_c"] = False
+        w.changed = True
+        w.labels.append("kill_resumed:" + op[2])
+        return None
     if k == "tamper":
         e["tamper"] = op[2]
         w.changed = True
@@ -263,6 +324,14 @@ def step(w, i, op):
     if k == "resume":
         return do_resume(w, i, e, op[2])
     raise HarnessError(op)
+
+
+def _snapshot(sess):
+    s = copy.copy(sess)
+    s.tickets = list(sess.tickets) if sess.tickets else sess.tickets
+    s.tls_1_0_tickets = list(sess.tls_1_0_tickets) \
+        if sess.tls_1_0_tickets else sess.tls_1_0_tickets
+    return s
 
 
 def tampered_session(w, e):
@@ -320,6 +389,9 @@ def do_resume(w, i, e, offer):
         c_opts["ems"] = offer["ems"]
     if "etm" in offer:
         c_opts["etm"] = offer["etm"]
+    if offer.get("hrr") and v == "tls13":
+        c_opts["hrr"] = True
+        s_opts["hrr"] = True
     if offer.get("drop_ccert"):
         # this time the client presents no certificate (and the server asks
         # for none): only an *accepted* resumption may carry the old
@@ -405,7 +477,7 @@ def do_resume(w, i, e, offer):
                                                                     tag),
                            hist, labels=w.labels)
         w.labels.append("resumed")
-        # a resumed session becomes a jar entry of its own
+        e["last_resumed_pair"] = p
         return None
     # not resumed
     if why in ("forged", "expired", "foreign", "unknown-id", "evicted",
@@ -543,12 +615,16 @@ def op_strategy():
             ["prepend", "drop_oldest", "replace_all"])),
         st.tuples(st.just("evict")),
         st.tuples(st.just("close"), j, st.sampled_from(
-            ["clean", "clean", "fatal", "abrupt", "lost_close"])),
+            ["clean", "clean", "fatal", "fatal_keep", "abrupt",
+             "lost_close"])),
         st.tuples(st.just("tamper"), j, st.sampled_from(
             ["flip", "trunc", "garbage", "foreign", "random_sid"])),
+        st.tuples(st.just("kill_resumed"), j, st.sampled_from(
+            ["fatal", "garbage", "abrupt"]), st.booleans()),
         st.tuples(st.just("resume"), j, st.fixed_dictionaries(
             {}, optional={"ems": st.booleans(), "etm": st.booleans(),
                           "drop_ccert": st.just(True),
+                          "hrr": st.just(True),
                           "s_ciphers": st.sampled_from(
                               [["aes128"], ["aes256gcm", "aes128gcm",
                                             "chacha20-poly1305"]]),
@@ -604,6 +680,15 @@ def explicit(tier, seed):
                          "random_sid"):
                 yield {"ops": [full, ["tamper", 0, kind],
                                ["resume", 0, {}]]}
+            for kind in ("fatal", "garbage", "abrupt"):
+                for keep in (False, True):
+                    yield {"ops": [full, ["resume", 0, {}],
+                                   ["kill_resumed", 0, kind, keep],
+                                   ["resume", 0, {}]]}
+            yield {"ops": [full, ["close", 0, "fatal_keep"],
+                           ["resume", 0, {}]]}
+            yield {"ops": [full, ["resume", 0, {"hrr": True}],
+                           ["resume", 0, {"hrr": True}]]}
             yield {"ops": [full, ["evict"], ["resume", 0, {}]]}
             # expiry must still work after the cache ring has wrapped
             full2 = ["full", v, dict(base_c), dict(s_opts)]
